@@ -43,6 +43,12 @@ TResume  == IsEvent("Resume") /\ stalled' = stalled \ {Row.p} /\ TakeObs /\ UNCH
 TTick    == IsEvent("Tick") /\ TakeObs /\ UNCHANGED <<up, inr, loc, polvars, stalled, held>>
 TSettle  == IsEvent("Settle") /\ stalled' = {} /\ held' = {} /\ TakeObs /\ UNCHANGED <<up, inr, loc, polvars>>
 
+(* peer removal / re-addition: removal ends the session (if any) and everything learned on it *)
+TDelPeer == /\ IsEvent("DelPeer")
+            /\ (IF up[Row.p] THEN PDown(Row.p) ELSE UNCHANGED pvars)
+            /\ stalled' = stalled \ {Row.p} /\ held' = held \ {Row.p} /\ TakeObs
+TAddPeer == IsEvent("AddPeer") /\ TakeObs /\ UNCHANGED <<up, inr, loc, polvars, stalled, held>>
+
 TargetOf(n) == IF n = "all" THEN Peers ELSE {n}
 TSetImp  == IsEvent("SetImp") /\ PSetImp(Row.pol) /\ TakeObs /\ UNCHANGED <<stalled, held>>
 TSetExp  == IsEvent("SetExp") /\ PSetExp(Row.pol) /\ TakeObs /\ UNCHANGED <<stalled, held>>
@@ -57,7 +63,7 @@ TOp     == IsEvent("Op") /\ TakeObs /\ UNCHANGED <<up, inr, loc, polvars, stalle
 THealth == IsEvent("Health") /\ obs' = [health |-> Row] /\ hasObs' = FALSE /\ pobs' = obs
            /\ UNCHANGED <<up, inr, loc, polvars, stalled, held>>
 
-TraceNext == TOp \/ THealth \/ TSetImp \/ TSetExp \/ TResetIn \/ TResetOut \/ TResetBoth \/ TRefresh \/ TReset \/ TUp \/ TUpHold \/ TRelease \/ TDown \/ TAnn \/ TWd \/ TApiAdd \/ TApiDel
+TraceNext == TDelPeer \/ TAddPeer \/ TOp \/ THealth \/ TSetImp \/ TSetExp \/ TResetIn \/ TResetOut \/ TResetBoth \/ TRefresh \/ TReset \/ TUp \/ TUpHold \/ TRelease \/ TDown \/ TAnn \/ TWd \/ TApiAdd \/ TApiDel
              \/ TStall \/ TResume \/ TTick \/ TSettle
 TraceSpec == TraceInit /\ [][TraceNext]_tvars
 
